@@ -141,6 +141,19 @@ def real_split_path(path, minsegs, maxsegs, rwl):
         return ('err',)
     except Exception as e:
         return ('raised', type(e).__name__)
+    if isinstance(r, list):
+        # the caller owns the result: scribbling over it must not influence
+        # what an identical later call returns
+        snap = list(r)
+        r.append('scribble')
+        r[:1] = ['scribble']
+        try:
+            again = strutils.split_path(path, minsegs, maxsegs, rwl)
+        except Exception as e:
+            return ('raised', 'second identical call: %s' % type(e).__name__)
+        if again != snap:
+            return ('ok-then-differs', snap, again)
+        return ('ok', snap)
     return ('ok', r)
 
 
@@ -186,6 +199,11 @@ def check_split_path(case, sub):
         raise Violation(sub, 'split_path(%r, %r, %r, %r) raised %s, only '
                         'ValueError is allowed' % (path, minsegs, maxsegs,
                                                    rwl, got[1]), case)
+    if got[0] == 'ok-then-differs':
+        raise Violation(sub, 'split_path(%r, %r, %r, %r) returned %r, and '
+                        'after the caller modified that list an identical '
+                        'call returned %r' % (path, minsegs, maxsegs, rwl,
+                                              got[1], got[2]), case)
     if got[0] == 'ok':
         r = got[1]
         if not isinstance(r, list):
